@@ -40,8 +40,8 @@ def judgeAll (lim : Limits) (nEv : Nat) (ctors : List String) (impl : List Strin
 #guard judgeAll lim0 1 [] ["r err es=2", "obs ticks=2000 maxcsp=3 maxsp=7 csp=-1 sp=2 cost=2000 depth=20 stack=300"] != []
 
 /-! ### instruction, depth and stack bounds on the measured numbers -/
-#guard judgeAll lim0 1 [] ["r ret 0", "obs ticks=2301 maxcsp=3 maxsp=7 csp=-1 sp=-1 cost=2000 depth=20 stack=300"] != []
-#guard judgeAll lim0 1 [] ["r ret 0", "obs ticks=2300 maxcsp=3 maxsp=7 csp=-1 sp=-1 cost=2000 depth=20 stack=300"] == []
+#guard judgeAll lim0 1 [] ["r ret 0", "obs ticks=2501 maxcsp=3 maxsp=7 csp=-1 sp=-1 cost=2000 depth=20 stack=300 handlers=2"] != []
+#guard judgeAll lim0 1 [] ["r ret 0", "obs ticks=2500 maxcsp=3 maxsp=7 csp=-1 sp=-1 cost=2000 depth=20 stack=300 handlers=2"] == []
 -- a normal return after the budget was used up (a swallowed expiry): flagged; an error return with the same numbers is not
 #guard judgeAll lim0 1 [] ["r ret 0", "obs ticks=2000 maxcsp=3 maxsp=7 csp=-1 sp=-1 cost=2000 depth=20 stack=300 maxtouch=-1 cost0=2000"] != []
 #guard judgeAll lim0 1 [] ["r ret 0", "obs ticks=1999 maxcsp=3 maxsp=7 csp=-1 sp=-1 cost=2000 depth=20 stack=300 maxtouch=-1 cost0=2000"] == []
@@ -72,5 +72,9 @@ def judgeAll (lim : Limits) (nEv : Nat) (ctors : List String) (impl : List Strin
 #guard judgeAll lim0 1 [] ["r ret \"kke:20/35\""] != []
 #guard judgeAll lim0 1 [] ["r ret \"kke:101/101\""] != []
 #guard judgeAll lim0 1 [] ["r ret \"kke:100/100\""] == []
+
+/-! ### a regexp match that needs more than the budget pays for must not be followed by a normal return -/
+#guard judgeAll { lim0 with rxMustExpire := true } 1 [] ["r ret 0"] != []
+#guard judgeAll { lim0 with rxMustExpire := true } 1 [] ["r err es=2"] == []
 
 end NV.C04
